@@ -22,16 +22,36 @@ var CollateFuncs = map[string]func(string, string) int{
 		)
 	},
 	"nocase": func(a, b string) int {
-		lc := func(r rune) rune {
-			if r >= 'A' && r <= 'Z' {
-				return rune(strings.ToLower(string(r))[0])
+		// Same as SQLite's nocaseCollatingFunc(): bytewise, only ASCII
+		// letters are folded, and the comparison of the common prefix
+		// stops at a NUL byte.
+		lc := func(c byte) int {
+			if c >= 'A' && c <= 'Z' {
+				return int(c) + 'a' - 'A'
 			}
-			return r
+			return int(c)
 		}
-		return strings.Compare(
-			strings.Map(lc, a),
-			strings.Map(lc, b),
-		)
+		n := len(a)
+		if len(b) < n {
+			n = len(b)
+		}
+		for i := 0; i < n; i++ {
+			if a[i] == 0 || lc(a[i]) != lc(b[i]) {
+				if d := lc(a[i]) - lc(b[i]); d < 0 {
+					return -1
+				} else if d > 0 {
+					return 1
+				}
+				break
+			}
+		}
+		switch {
+		case len(a) < len(b):
+			return -1
+		case len(a) > len(b):
+			return 1
+		}
+		return 0
 	},
 }
 
